@@ -367,7 +367,7 @@ Definition restore_by_id (st : store) (t : tdir) (id : N) (o : copts) : option b
 Fixpoint ins_desc (x : backup) (l : list backup) : list backup :=
   match l with
   | [] => [x]
-  | y :: r => if b_ts y <? b_ts x then x :: y :: r else y :: ins_desc x r
+  | y :: r => if b_ts y <=? b_ts x then x :: y :: r else y :: ins_desc x r
   end.
 Definition list_backups (st : store) : list backup := fold_right ins_desc [] st.
 
@@ -477,22 +477,6 @@ Definition prune_store (now : N) (p : policy) (st : store) : store :=
   let listing := list_backups st in
   let del := prune_deleted now p listing in
   filter (fun b => negb (memN (b_id b) del)) st.
-
-(* The repair proposed for the recorded finding: the keep set is closed under parent links before
-   anything is deleted.  (NOT what backup.rs does; used by C12_prune_keeps_parents_repaired.) *)
-Definition parent_kept (keep : list N) (listing : list backup) : list N :=
-  flat_map (fun b => if memN (b_id b) keep then match b_parent b with Some p => [p] | None => [] end else []) listing.
-
-Fixpoint close_keep (fuel : nat) (keep : list N) (listing : list backup) : list N :=
-  match fuel with
-  | O => keep
-  | S f => close_keep f (keep ++ parent_kept keep listing) listing
-  end.
-
-Definition prune_deleted_repaired (now : N) (p : policy) (listing : list backup) : list N :=
-  let keep0 := map b_id (filter (fun b => negb (prune_deletes now p listing b)) listing) in
-  let keep := close_keep (length listing) keep0 listing in
-  map b_id (filter (fun b => negb (memN (b_id b) keep)) listing).
 
 (* ------------------------------------------------------------------------------------------ *)
 (* comparison helpers for the correspondence (cases_*.v)                                       *)
